@@ -38,8 +38,8 @@ def drive(F3, alg, N, order=0):
         if order % 3 == 0:
             # history: the approximate (hull-based) areas are requested first; the exact areas asked for afterwards must still be exact
             calls.insert(order % 4, lambda: sv.get_voronoi_volumes(approx=True))
-        for c in calls:
-            c()
+        from vlib.rec import call_and_hold
+        call_and_hold(calls, "C03.returned_object_stable")
         if N >= 5:
             REC.nontrivial_case((alg, N))
     except Exception as e:
